@@ -248,8 +248,25 @@ def run(tier, seed, replay=None):
     for r in errs[:3]:
         R.violation({'target': r[2], 'position': r[1], 'value': r[0], 'what': 'rendering failed: ' + r[6]})
     if pairs is None:
-        R.violation({'what': str(broken_tie), 'detail': getattr(broken_tie, 'detail', ''),
-                     'theorem': 'translator gen_literal / C07 instance'}, nofail=(not code2 or True))
+        # the writers could not be translated: search the renderings themselves for a literal that the target's scanner does not
+        # read back as the value (support search in python; the listed findings are recognised as usual)
+        nsearch = 0
+        for v, pos, target, t1, pre, suf, _ in good:
+            if not _py_misread(t1, pre, suf, v, SCANNER[target]):
+                continue
+            f = classify(target, v, findings)
+            if f:
+                R.known_finding(f'{f["id"]}: {f["what"]}')
+                continue
+            nsearch += 1
+            if nsearch <= 3:
+                R.violation({'target': target, 'position': pos, 'value': v, 'rendered': t1,
+                             'what': f'the {SCANNER[target]} scanner does not read the rendered literal back as the value and/or does not '
+                                     f'stop at its end', 'found_by': 'search on the renderings (the literal writers could not be translated: '
+                                                                     + str(broken_tie) + ')'})
+        if not nsearch:
+            R.violation({'what': str(broken_tie), 'detail': getattr(broken_tie, 'detail', ''),
+                         'theorem': 'translator gen_literal / C07 instance'}, nofail=True)
     elif not sa_ok and not any(not nf for _, nf in R.violations):
         R.violation({'what': f'render_literal_value escapes with {pairs["sa"]}: K_doubling fails', 'theorem': 'C07_std instance'},
                     nofail=True)
